@@ -5,3 +5,4 @@ import MorfuseModel.SafePtr.Lemmas
 import MorfuseModel.Props.C12
 import MorfuseModel.Dispatch.Model
 import MorfuseModel.Dispatch.Spec
+import MorfuseModel.Props.C16
